@@ -35,4 +35,23 @@ def agentReport (addr api : String) (locals : List LocalShard) (adv : List (Nat 
 def dispatch (reqs : List Request) : List (Nat × List Request) :=
   (reqs.map (·.shardId)).eraseDups.map fun s => (s, reqs.filter (·.shardId == s))
 
+/-- `handleInstantiateRequest` (client/nodehost.go:376-443): what a CREATE request does, given its `Join` / `Restore`
+    flags and whether the NodeHost already holds data of the replica -/
+inductive InstOutcome
+  | start (join : Bool)   -- StartReplica with this join flag
+  | ignore                -- the request is dropped
+  | panic                 -- the agent crashes
+  deriving Repr, DecidableEq
+
+def instantiate (join restore hasInfo : Bool) : InstOutcome :=
+  match join, restore with
+  | true, false => .start true                       -- join: a warning when data exists, the replica is started anyway
+  | false, true => if hasInfo then .start false else .ignore
+  | false, false => if hasInfo then .panic else .start false
+  | true, true => .panic
+
+def InstOutcome.started : InstOutcome → Bool
+  | .start _ => true
+  | _ => false
+
 end Drummer
